@@ -138,6 +138,7 @@ theorem wt_declTys (vtys : List CSem.Ty) (ret : CSem.Ty) (cnts : List Nat) (st :
   | pload d dt k' t w c0 x => intro lb lc nd nd' h _ _ k t n hk; simp [declTys] at hk
   | aload d dt a t n xb x => intro lb lc nd nd' h _ _ k t n hk; simp [declTys] at hk
   | astore a t n xb x v => intro lb lc nd nd' h _ _ k t n hk; simp [declTys] at hk
+  | ainit a t n xb j v => intro lb lc nd nd' h _ _ k t n hk; simp [declTys] at hk
   | switch_ e b ihb =>
     intro lb lc nd nd' h ha hd k t n hk
     simp only [Stmt.wt] at h
